@@ -727,6 +727,9 @@ def iterate(I, v, node, comp=None):
         m = v.cls.find_method("__iter__")
         if m is not None:
             return iterate(I, I.call_function(m, v, [], {}), node)
+    if isinstance(v, ClassRef) and (v.info.is_subclass_of("Enum") or v.info.is_subclass_of("enum.Enum")):
+        members = [n for n, e in v.info.class_attrs.items() if not n.startswith("_") and n not in v.info.methods]      # definition order
+        return [EnumVal(v.info.find_class_attr(n)[0], n) for n in members]
     if isinstance(v, Sym) and v.kind in ("seq", "str", "bytes"):
         raise OutsideSubset(f"iteration over a sequence of symbolic length needs a loop invariant (line {getattr(node, 'lineno', '?')})")
     if v is None or isinstance(v, (int, float, bool)) or (isinstance(v, Sym) and v.kind in ("int", "bool")):
